@@ -575,15 +575,16 @@ func (ndb *nodeDB) deleteLegacyVersions(legacyLatestVersion int64) error {
 		return err
 	}
 
-	// Delete orphans for all legacy versions
+	// Delete orphans for all legacy versions. The keys are collected first: the batch may be
+	// flushed to the database while it fills up, and a backend such as MemDB cannot be
+	// written to while one of its iterators is still open.
+	var staleKeys [][]byte
 	if err := ndb.traversePrefix(legacyOrphanKeyFormat.Key(), func(key, value []byte) error {
-		if err := ndb.deleteFromPruning(key); err != nil {
-			return err
-		}
+		staleKeys = append(staleKeys, append([]byte(nil), key...))
 		var fromVersion, toVersion int64
 		legacyOrphanKeyFormat.Scan(key, &toVersion, &fromVersion)
 		if (fromVersion <= legacyLatestVersion && toVersion < legacyLatestVersion) || fromVersion > legacyLatestVersion {
-			return ndb.deleteFromPruning(ndb.legacyNodeKey(value))
+			staleKeys = append(staleKeys, ndb.legacyNodeKey(value))
 		}
 		return nil
 	}); err != nil {
@@ -591,9 +592,15 @@ func (ndb *nodeDB) deleteLegacyVersions(legacyLatestVersion int64) error {
 	}
 	// Delete all legacy roots
 	if err := ndb.traversePrefix(legacyRootKeyFormat.Key(), func(key, _ []byte) error {
-		return ndb.deleteFromPruning(key)
+		staleKeys = append(staleKeys, append([]byte(nil), key...))
+		return nil
 	}); err != nil {
 		return err
+	}
+	for _, key := range staleKeys {
+		if err := ndb.deleteFromPruning(key); err != nil {
+			return err
+		}
 	}
 
 	return nil
@@ -625,20 +632,31 @@ func (ndb *nodeDB) DeleteVersionsFrom(fromVersion int64) error {
 	}
 	dumpFromVersion := fromVersion
 	if legacyLatestVersion >= fromVersion {
+		// The roots are collected first: the batch may be flushed to the database while it
+		// fills up, and a backend such as MemDB cannot be written to while one of its
+		// iterators is still open.
+		var rootKeys, rootHashes [][]byte
 		if err := ndb.traverseRange(legacyRootKeyFormat.Key(fromVersion), legacyRootKeyFormat.Key(legacyLatestVersion+1), func(k, v []byte) error {
+			rootKeys = append(rootKeys, append([]byte(nil), k...))
+			rootHashes = append(rootHashes, append([]byte(nil), v...))
+			return nil
+		}); err != nil {
+			return err
+		}
+		for i, k := range rootKeys {
 			var version int64
 			legacyRootKeyFormat.Scan(k, &version)
 			// delete the legacy nodes (the root of an empty version has none)
-			if len(v) > 0 {
-				if err := ndb.deleteLegacyNodes(version, v); err != nil {
+			if len(rootHashes[i]) > 0 {
+				if err := ndb.deleteLegacyNodes(version, rootHashes[i]); err != nil {
 					return err
 				}
 			}
 			// it will skip the orphans because orphans will be removed at once in `deleteLegacyVersions`
 			// delete the legacy root
-			return ndb.batch.Delete(k)
-		}); err != nil {
-			return err
+			if err := ndb.batch.Delete(k); err != nil {
+				return err
+			}
 		}
 		// Update the legacy latest version forcibly
 		ndb.legacyLatestVersion = 0
